@@ -61,8 +61,10 @@ GeomMapEntry(g, s) ==
     [shank |-> s[1],
      x |-> IF g = "NP1" THEN 70 - (Grid(g).X0 + Grid(g).DX * s[3]) ELSE Grid(g).X0 + Grid(g).DX * s[3],
      y |-> Grid(g).DY * s[2], flag |-> FlagOf(s)]
-Encodings(g) == IF g = "NPU" THEN {"shank"} ELSE {"shank", "geom"}
-Encode(g, e, s) == IF e = "shank" THEN ShankMapEntry(g, s) ELSE GeomMapEntry(g, s)
+\* "both": metadata that carries the two encodings of the same table (a geometry map added to metadata that kept its shank map)
+Encodings(g) == IF g = "NPU" THEN {"shank"} ELSE {"shank", "geom", "both"}
+\* _map_channels_from_meta looks for the shank map first: with both maps present it is the one that is parsed
+Encode(g, e, s) == IF e \in {"shank", "both"} THEN ShankMapEntry(g, s) ELSE GeomMapEntry(g, s)
 
 -----------------------------------------------------------------------------
 (* implementation layer *)
